@@ -51,3 +51,15 @@ func init() {
 	}
 	externals["os.RemoveAll"] = func(fr *frame, args []value) value { return iface{} }
 }
+
+func init() {
+	// reflect's package initialiser only caches a few *abi.Type values (uint8Type, stringType, ...); the engine does
+	// not model runtime type descriptors, so they are nil. Any later use of reflect on them is still unsupported.
+	externals["reflect.rtypeOf"] = func(fr *frame, args []value) value {
+		if fr.w.inInit > 0 {
+			return (*value)(nil)
+		}
+		unsupported("reflect.rtypeOf at %s", fr.w.where(fr.caller, fr.callpos))
+		return nil
+	}
+}
